@@ -2,19 +2,23 @@
 Applies each deliberately broken (or deliberately harmless) edit of mutants/<id>.json to a scratch copy of the repository (removed
 afterwards), runs ./check <id> against it and compares exit code and reported obligations/clauses with the expectation."""
 import json, os, re, shutil, subprocess, sys, tempfile
+builtins_print = print
 VERIF = os.path.dirname(os.path.dirname(os.path.abspath(__file__)))
 def main():
-    pid = sys.argv[1]; flt = sys.argv[2] if len(sys.argv) > 2 else ""
+    from concurrent.futures import ThreadPoolExecutor
+    args = [a for a in sys.argv[1:] if not a.startswith("--")]; pid = args[0]; flt = args[1] if len(args) > 1 else ""
     repo = os.environ.get("VF_REPO", "/repo"); muts = json.load(open(os.path.join(VERIF, "mutants", f"{pid}.json")))
-    os.makedirs("/var/tmp/mut", exist_ok=True); ok = 0; bad = []
-    for m in muts:
-        if flt not in m["name"]: continue
+    os.makedirs("/var/tmp/mut", exist_ok=True); results = []
+    def one(m):
+        lines = []
+        def print(*a): lines.append(" ".join(str(x) for x in a))
+        good = False
         d = tempfile.mkdtemp(prefix="m.", dir="/var/tmp/mut")
         try:
             subprocess.check_call(["cp", "-r", os.path.join(repo, "gcmpy"), d])
             for ed in m["edits"]:
                 p = os.path.join(d, ed["file"]); s = open(p).read()
-                if s.count(ed["old"]) != 1: raise SystemExit(f"{m['name']}: edit does not apply uniquely ({s.count(ed['old'])} matches) in {ed['file']}")
+                if s.count(ed["old"]) != 1: raise RuntimeError(f"{m['name']}: edit does not apply uniquely ({s.count(ed['old'])} matches) in {ed['file']}")
                 open(p, "w").write(s.replace(ed["old"], ed["new"]))
             r = subprocess.run([os.path.join(VERIF, "check"), pid, "--tier", "quick"], env=dict(os.environ, VF_REPO=d, VF_EVIDENCE_DIR=d), capture_output=True, text=True)
             out = r.stdout; viol = re.findall(r"VIOLATION .*", out)
@@ -22,9 +26,15 @@ def main():
             good = r.returncode == want_exit and (m["expect"] == "ok" or any(re.search(m["expect"], v) for v in viol))
             tag = "ok  " if good else "MISS"
             print(f"{tag} {m['name']}: exit={r.returncode} " + "; ".join(v.split("replay=")[1].split(" ", 1)[-1][:90] for v in viol[:3]) + ("" if good else f"   (expected {m['expect']})"))
-            if good: ok += 1
-            else: bad.append(m["name"]); print(out[-1500:]); print(r.stderr[-800:])
+            if not good: print(out[-1500:]); print(r.stderr[-800:])
         finally: shutil.rmtree(d, ignore_errors=True)
-    print(f"{pid}: {ok} as expected, {len(bad)} not: {bad}")
+        return m["name"], good, "\n".join(lines)
+    todo = [m for m in muts if flt in m["name"]]
+    with ThreadPoolExecutor(int(os.environ.get("VF_MUTANT_JOBS", "3"))) as ex:
+        for name, good, text in ex.map(one, todo):
+            results.append((name, good)); builtins_print(text, flush=True)
+    bad = [n for n, g in results if not g]
+    builtins_print(f"{pid}: {len(results) - len(bad)} as expected, {len(bad)} not: {bad}")
+    if "--json" in sys.argv: builtins_print(json.dumps(dict(mutants=len(results), as_expected=len(results) - len(bad), unexpected=bad)))
     sys.exit(0 if not bad else 1)
 if __name__ == "__main__": main()
